@@ -53,9 +53,13 @@ def stream_alphabet(tier="quick"):
     for n in other:
         A.append(st(n))
         A.append(et(n))
-    for n in ("svg", "li", "p", "td", "foreignObject"):
+    # foreign elements: every name the filter's rules look for in a neighbour also exists as an SVG element here (a
+    # foreign neighbour must never satisfy a rule about an HTML element)
+    for n in ["svg", "foreignObject"] + list(OMISSIBLE):
         A.append(st(n, ns=SVG_NS))
         A.append(et(n, ns=SVG_NS))
+    for n in ("col", "meta", "link", "script", "div"):
+        A.append(empty(n, ns=SVG_NS) if n in ("col", "meta", "link") else st(n, ns=SVG_NS))
     for n in ("br", "col", "meta", "link", "hr", "input"):
         A.append(empty(n))
     A += [chars("x"), chars("x y"), space(" "), space("\n\t"), comment(), doctype()]
